@@ -1,6 +1,8 @@
 package h
 
 import (
+	"os"
+	"reflect"
 	"errors"
 	"fmt"
 	"math"
@@ -21,6 +23,7 @@ type Interp struct {
 	calls int // property calls so far in this run (for the C02-only OpInvIdx)
 	customVar map[int]bool // variables local to Custom generator functions (never part of messages)
 	PropCalls int
+	OpenProbe bool // the property opens (and closes) a file before anything else
 }
 
 type Env struct {
@@ -135,6 +138,12 @@ func (in *Interp) buildAny(s *GenSpec) drawFn {
 		return box(rapid.SliceOf(in.buildSliceInt(s.Sub)))
 	case "makemap":
 		return box(rapid.Make[map[bool]int]()) // reflection-based generator: duplicate keys are rejected attempts
+	case "makepair":
+		// two distinct types with one and the same name and printed form (declared in different scopes)
+		if s.A == 0 {
+			return makePairA()
+		}
+		return makePairB()
 	case "mapof":
 		return box(rapid.MapOf(rapid.IntRange(0, s.A), in.buildInt(s.Sub)))
 	case "mapbool":
@@ -145,6 +154,165 @@ func (in *Interp) buildAny(s *GenSpec) drawFn {
 		return box(rapid.Float64())
 	}
 	return box(in.buildInt(s))
+}
+
+func makePairA() drawFn {
+	type pair struct {
+		X int8
+		Y bool
+	}
+	return box(rapid.Make[pair]())
+}
+
+func makePairB() drawFn {
+	type pair struct {
+		X []uint8
+		Y int16
+	}
+	return box(rapid.Make[pair]())
+}
+
+
+//go:noinline
+func (goruntime) s1(t *rapid.T, k FailKind, msg string) {
+	switch k {
+	case FKPanicStr:
+		panic(msg)
+	case FKFatalf:
+		t.Fatalf("%s", msg)
+	default:
+		t.Errorf("%s", msg)
+	}
+}
+
+//go:noinline
+func (goruntime) s2(t *rapid.T, k FailKind, msg string) {
+	switch k {
+	case FKPanicStr:
+		panic(msg)
+	case FKFatalf:
+		t.Fatalf("%s", msg)
+	default:
+		t.Errorf("%s", msg)
+	}
+}
+
+//go:noinline
+func (goruntime) s3(t *rapid.T, k FailKind, msg string) {
+	switch k {
+	case FKPanicStr:
+		panic(msg)
+	case FKFatalf:
+		t.Fatalf("%s", msg)
+	default:
+		t.Errorf("%s", msg)
+	}
+}
+
+//go:noinline
+func (goruntime) s4(t *rapid.T, k FailKind, msg string) {
+	switch k {
+	case FKPanicStr:
+		panic(msg)
+	case FKFatalf:
+		t.Fatalf("%s", msg)
+	default:
+		t.Errorf("%s", msg)
+	}
+}
+
+//go:noinline
+func (goruntime) s5(t *rapid.T, k FailKind, msg string) {
+	switch k {
+	case FKPanicStr:
+		panic(msg)
+	case FKFatalf:
+		t.Fatalf("%s", msg)
+	default:
+		t.Errorf("%s", msg)
+	}
+}
+
+//go:noinline
+func (goruntime) s6(t *rapid.T, k FailKind, msg string) {
+	switch k {
+	case FKPanicStr:
+		panic(msg)
+	case FKFatalf:
+		t.Fatalf("%s", msg)
+	default:
+		t.Errorf("%s", msg)
+	}
+}
+
+//go:noinline
+func (goruntime) s7(t *rapid.T, k FailKind, msg string) {
+	switch k {
+	case FKPanicStr:
+		panic(msg)
+	case FKFatalf:
+		t.Fatalf("%s", msg)
+	default:
+		t.Errorf("%s", msg)
+	}
+}
+
+// scribble overwrites everything mutable that is reachable from a drawn value: a test owns the values it draws, and
+// what it does to them must not reach the generator or any later draw.
+func scribble(v any) {
+	if v != nil {
+		scribbleRV(reflect.ValueOf(v), 0)
+	}
+}
+
+func scribbleRV(rv reflect.Value, depth int) {
+	if depth > 6 || !rv.IsValid() {
+		return
+	}
+	switch rv.Kind() {
+	case reflect.Interface, reflect.Pointer:
+		if !rv.IsNil() {
+			scribbleRV(rv.Elem(), depth+1)
+		}
+		if rv.Kind() == reflect.Interface && rv.CanSet() && rv.NumMethod() == 0 {
+			rv.Set(reflect.ValueOf("SCRIBBLED"))
+		}
+	case reflect.Slice:
+		for i := 0; i < rv.Len(); i++ {
+			scribbleRV(rv.Index(i), depth+1)
+		}
+	case reflect.Map:
+		for _, k := range rv.MapKeys() {
+			scribbleRV(rv.MapIndex(k), depth+1)
+			rv.SetMapIndex(k, reflect.Value{})
+		}
+	case reflect.Struct:
+		for i := 0; i < rv.NumField(); i++ {
+			if rv.Type().Field(i).IsExported() {
+				scribbleRV(rv.Field(i), depth+1)
+			}
+		}
+	case reflect.Int, reflect.Int8, reflect.Int16, reflect.Int32, reflect.Int64:
+		if rv.CanSet() {
+			rv.SetInt(-77)
+		}
+	case reflect.Uint, reflect.Uint8, reflect.Uint16, reflect.Uint32, reflect.Uint64:
+		if rv.CanSet() {
+			rv.SetUint(0x7E)
+		}
+	case reflect.Bool:
+		if rv.CanSet() {
+			rv.SetBool(!rv.Bool())
+		}
+	case reflect.String:
+		if rv.CanSet() {
+			rv.SetString("SCRIBBLED")
+		}
+	case reflect.Float32, reflect.Float64:
+		if rv.CanSet() {
+			rv.SetFloat(-7.5)
+		}
+	}
 }
 
 func features(v any) [2]int64 {
@@ -211,6 +379,22 @@ func features(v any) [2]int64 {
 			neg = 1
 		}
 		return [2]int64{int64(f), neg}
+	}
+	if rv := reflect.ValueOf(v); rv.IsValid() && rv.Kind() == reflect.Struct {
+		var a, b int64
+		for i := 0; i < rv.NumField(); i++ {
+			switch f := rv.Field(i); f.Kind() {
+			case reflect.Int8, reflect.Int16, reflect.Int:
+				a += f.Int()
+			case reflect.Bool:
+				if f.Bool() {
+					b++
+				}
+			case reflect.Slice:
+				b += int64(f.Len())
+			}
+		}
+		return [2]int64{a, b}
 	}
 	return [2]int64{0, 0}
 }
@@ -279,6 +463,14 @@ func (in *Interp) Prop(t *rapid.T) {
 	defer in.w.endInv(t, inv) // plain defer: never recovers
 	in.calls++
 	in.PropCalls++
+	if in.OpenProbe {
+		// what many real properties do first: open something
+		f, err := os.Open(os.DevNull)
+		if err != nil {
+			t.Fatalf("the property could not open a file: %v", err)
+		}
+		_ = f.Close()
+	}
 	in.env = &Env{vals: make([][2]int64, in.p.NVars), set: make([]bool, in.p.NVars)}
 	dc := 0
 	in.exec(t, inv, in.p.Body, "body", &dc)
@@ -386,6 +578,7 @@ func (in *Interp) exec(t *rapid.T, inv *Invocation, body []*Stmt, where string, 
 			w.ev(EvDraw, inv.Idx, label, normText(v), s.Var, true)
 			in.env.vals[s.Var] = features(v)
 			in.env.set[s.Var] = true
+			scribble(v)
 		case SIf:
 			if in.eval(s.Cond) {
 				in.exec(t, inv, s.Body, where, dc)
@@ -573,6 +766,35 @@ func (in *Interp) fail(t *rapid.T, inv *Invocation, k FailKind, site int, where 
 		}
 		inv.unwinding, inv.unwindWhere = "fatal", where
 	}
+	switch in.p.SiteStyle {
+	case 1:
+		// same frames from the panic up to and including this function; only the line of the call differs
+		switch site {
+		case 0:
+			deepFail(13, t, k, msg)
+		case 1:
+			deepFail(13, t, k, msg)
+		case 2:
+			deepFail(13, t, k, msg)
+		case 3:
+			deepFail(13, t, k, msg)
+		case 4:
+			deepFail(13, t, k, msg)
+		case 5:
+			deepFail(13, t, k, msg)
+		case 6:
+			deepFail(13, t, k, msg)
+		default:
+			deepFail(13, t, k, msg)
+		}
+		return
+	case 2:
+		if site > 7 {
+			site = 7
+		}
+		rtSites[site](t, k, msg) // one line for all sites: the callee is the only difference
+		return
+	}
 	switch site {
 	case 0:
 		site0(t, k, msg)
@@ -620,6 +842,32 @@ func site6(t *rapid.T, k FailKind, msg string) { doFail(t, k, msg) }
 func site7(t *rapid.T, k FailKind, msg string) { doFail(t, k, msg) }
 
 var zeroInt = 0
+
+//go:noinline
+func deepFail(n int, t *rapid.T, k FailKind, msg string) {
+	if n > 0 {
+		deepFail(n-1, t, k, msg)
+		return
+	}
+	doFail(t, k, msg)
+}
+
+// a user type whose name ends in "runtime": its frames read "<pkg>.goruntime.s3"
+type goruntime struct{}
+
+var rtSites = [8]func(*rapid.T, FailKind, string){goruntime{}.s0, goruntime{}.s1, goruntime{}.s2, goruntime{}.s3, goruntime{}.s4, goruntime{}.s5, goruntime{}.s6, goruntime{}.s7}
+
+//go:noinline
+func (goruntime) s0(t *rapid.T, k FailKind, msg string) {
+	switch k {
+	case FKPanicStr:
+		panic(msg)
+	case FKFatalf:
+		t.Fatalf("%s", msg)
+	default:
+		t.Errorf("%s", msg)
+	}
+}
 
 //go:noinline
 func doFail(t *rapid.T, k FailKind, msg string) {
@@ -673,3 +921,6 @@ func (m *progSM) A(t *rapid.T)     { m.a(t) }
 func (m *progSM) B(t rapid.TB)     { m.b(t.(*rapid.T)) }
 func (m *progSM) C(t *rapid.T)     { m.c(t) }
 func (m *progSM) Check(t *rapid.T) { m.check(t) }
+
+// rapidVersionLine: the "version#seed" line of a fail file written by the rapid under test.
+func rapidVersionLine() string { return rapid.VerifVersion() + "#1" }
